@@ -447,7 +447,13 @@ func (r *Runner) assignVal(name string, prev expand.Variable, as *syntax.Assign,
 	if valType == "-A" {
 		amap := make(map[string]string, len(elems))
 		for _, elem := range elems {
-			k := r.literal(elem.Index.(*syntax.Word))
+			w, ok := elem.Index.(*syntax.Word)
+			if !ok {
+				// Like in setVarWithIndex, only plain words can be keys.
+				r.errf("%s: unsupported key for an associative array\n", name)
+				continue
+			}
+			k := r.literal(w)
 			amap[k] = r.literal(elem.Value)
 		}
 		if !as.Append {
